@@ -257,6 +257,8 @@ void PCA(matrix *mx, int scaling, size_t npc, PCAMODEL* model, ssignal *s)
 
       /* End Step 1 */
 
+      size_t iter = 0;
+      double conv;
       while(1){
         /* Step 2: projection of t' in E (t'*E) */
         MT_DVectorMatrixDotProduct(E, t, p);
@@ -299,7 +301,10 @@ void PCA(matrix *mx, int scaling, size_t npc, PCAMODEL* model, ssignal *s)
         puts("....................");
         #endif
 
-        if(calcConvergence(t, t_old) < PCACONVERGENCE){
+        /* a null component (t't = 0) makes the criterion NaN: stop instead of iterating forever */
+        conv = calcConvergence(t, t_old);
+        iter++;
+        if(conv < PCACONVERGENCE || _isnan_(conv) || iter >= PCAMAXITER){
           /* copy the loadings and score to the output data matrix */
           for(i = 0; i < t->size; i++){
             model->scores->data[i][pc] = t->data[i];
